@@ -178,3 +178,30 @@ Definition derive_shared_key (P : ec_prims) (sk : privkey) (pk : pubkey) : outco
   | None => Err
   | Some Q => Ok (be32 (p_ecdh P (sk_d sk) Q))
   end.
+
+(* ------------------------------------------------------------------ *)
+(* ECDSA::private_key_from_signature_k (src/ecdsa/recover.rs): d = r^-1 (k s - H(m)) mod n with U1024 WRAPPING
+   arithmetic (crypto-bigint wrapping_mul / wrapping_sub / wrapping_rem); m is the 32-byte digest as an integer
+   (not reduced); three candidates are tried (s, n - s, and n - s with m + n); a candidate equal to 0 makes
+   PrivateKey::from_bytes_impl fail, which ends the function with Err; candidates are compared through the
+   COMPRESSED encoding of their public key (from_bytes_impl sets is_pub_key_compressed = true) against the bytes
+   of the given public key.  [inv] is the scalar inversion (k256 Scalar::invert).  Not part of properties C05/C06
+   (no theorem); modelled so that every public function of src/ecdsa is tied by the correspondence run. *)
+Definition w1024 (v : Z) : Z := v mod 2 ^ 1024.
+Definition private_key_from_signature_k (P : ec_prims) (inv : Z -> Z) (sg : signature) (pk : pubkey)
+           (ephemeral : privkey) (preimage : bytes) (algo : signing_hash) : outcome privkey :=
+  let k := sk_d ephemeral in
+  let m := be_Z (message_digest algo preimage) in
+  let s := sig_s sg in
+  let rinv := inv (sig_r sg) in
+  let n := secp_n in
+  let cand (t : Z) : Z := w1024 (rinv * w1024 t) mod n in
+  let key_of (d : Z) : outcome (privkey * bytes) :=
+    if in_scalar d then Ok ({| sk_d := d; sk_compressed := true |}, sec1_encode true (p_pubkey P d)) else Err in
+  let target := pk_point pk in
+  do c1 <- key_of (cand (w1024 (k * s) - m));
+  do c2 <- (if bytes_eqb (snd c1) target then Ok c1
+            else key_of (cand (w1024 (k * w1024 (n - s)) - m)));
+  do c3 <- (if bytes_eqb (snd c2) target then Ok c2
+            else key_of (cand (w1024 (k * w1024 (n - s)) - w1024 (m + n))));
+  if bytes_eqb (snd c3) target then Ok (fst c3) else Err.
